@@ -919,7 +919,8 @@ func serveCtxRootedInBackground(c *cx, id string) {
 			if cl, isCall := ast.Unparen(rhs).(*ast.CallExpr); rhs != nil && isCall {
 				cid := f.CalleeID(cl)
 				if (cid == "context.WithCancel" || cid == "context.WithDeadline" || cid == "context.WithTimeout") && len(cl.Args) >= 1 {
-					if pc, isCall := ast.Unparen(cl.Args[0]).(*ast.CallExpr); isCall && f.CalleeID(pc) == "context.Background" {
+					wp, _ := f.Graph().Where(w.Stmt)
+					if f.Norm(cl.Args[0], &wp) == "context.Background()" {
 						ok = true
 					} else {
 						why = "the parent is " + types.ExprString(cl.Args[0]) + ", not context.Background()"
